@@ -49,7 +49,7 @@ BOUNDS = {
         "raise_full_product": "weight<=1 over all 32 kinds, LF: every position x 12 raise kinds x 5 paths",
         "raise_rotated": "weight 2 over 11 kinds (QUICK2_KINDS) LF and weight<=1 over all kinds CRLF: every (program,position,kind) "
         "on one rotating path + the 2 principal kinds on all 5 paths + format_exceptions on one path",
-        "warn": "weight<=1 (all kinds, LF): every position x 8 warning plants x 5 paths x {always,once,error}",
+        "warn": "weight<=1 (all kinds, LF) and weight 2 over {block, ablock, defb}: every position x 8 warning plants x 5 paths x {always,once,error}",
         "raise_kinds": c12_ir.RAISE_KINDS,
         "warn_kinds": c12_ir.WARN_KINDS,
         "paths": PATHS,
@@ -581,6 +581,7 @@ def tier_spec(tier):
             ("full-w1", [0, 1], A, ["\n"], "full"),
             ("rot-w1-crlf", [0, 1], A, ["\r\n"], "rotated"),
             ("warn-w1", [0, 1], A, ["\n"], "warn"),
+            ("warn-w2-closures", [2], ["block", "ablock", "defb"], ["\n"], "warn"),
         ]
     return [
         ("full-w2", [0, 1, 2], A, ["\n"], "full"),
